@@ -434,8 +434,53 @@ def _work(item):
           'line_events': len(ev), 'fault_points': len(thin(ev))}
 
 
+# ---- success path: "on success the destination holds exactly the serialized record" for every chunk-size shape --------
+SIZES = [0, 1, 4095, 8192, 8193, 65535, 65536, 65537, 100000]
+
+
+def _sizes_work(item):
+  mode, n1s = item
+  import shutil, tempfile  # pylint: disable=g-import-not-at-top,multiple-imports
+  viols, n = [], 0
+  root = tempfile.mkdtemp(prefix='c17sz_', dir=os.environ.get('VERIF_SCRATCH') or None)
+  try:
+    for n1 in n1s:
+      for n2 in SIZES:
+        for n3 in (SIZES if n1 in (0, 1, 65536, 100000) else (1, 65537)):
+          chunks = ['a' * n1, 'b' * n2, 'c' * n3]
+          scn = {'kind': 'custom', 'chunks': chunks, 'mode': mode, 'pattern': 'brace'}
+          outdir = os.path.join(root, 'o%d' % n)
+          os.makedirs(outdir)
+          fn, exp, dest = build(scn, outdir)
+          n += 1
+          try:
+            fn()
+            got = open(dest, 'rb').read() if os.path.exists(dest) else None
+          except Exception as e:  # pylint: disable=broad-except
+            got = 'EXC:%r' % (e,)
+          if got != exp:
+            what = ('destination holds %s bytes, the serialization has %d' % (len(got) if isinstance(got, bytes) else got, len(exp)))
+            viols.append(('sizes:%s:content' % mode, 'chunk sizes %r (%s): %s' % ([n1, n2, n3], mode, what),
+                          {'sizes_case': [mode, n1, n2, n3]}))
+          shutil.rmtree(outdir, ignore_errors=True)
+  finally:
+    shutil.rmtree(root, ignore_errors=True)
+  return n, viols
+
+
+def run_sizes(rep):
+  items = [(m, [n1]) for m in ('iter_text', 'iter_bytes') for n1 in SIZES]
+  res = common.pmap(_sizes_work, items, chunksize=1)
+  for r in res:
+    rep.merge_violations(r[1])
+  n = sum(r[0] for r in res)
+  rep.add_part('success-path chunk sizes', evaluations=n, distinct_nontrivial=n, exhaustive=True,
+               samples=[{'sizes': SIZES, 'shape': 'three chunks, text and bytes iterators'}])
+
+
 def run(tier):
   rep = common.Report(PID, tier, 'fault_enumeration')
+  run_sizes(rep)
   for k in ('small', 'nan') + (('large',) if tier == 'thorough' else ()):
     make_record(k)  # built before forking so that every worker shares them
   items = [(s, p) for s in scenarios(tier) for p in ('fresh', 'previous')]
@@ -466,6 +511,18 @@ def run(tier):
 
 def replay(art):
   r = art['replay']
+  if r.get('sizes_case'):
+    mode, n1, n2, n3 = r['sizes_case']
+    global SIZES
+    saved, SIZES = SIZES, [n2]
+    try:
+      n, viols = _sizes_work((mode, [n1]))
+    finally:
+      SIZES = saved
+    viols = [v for v in viols]
+    for v in viols:
+      print('VIOLATED', v[0], v[1])
+    return 1 if viols else 0
   scn = dict(r['scenario'])
   if r.get('chunks') is not None:
     scn['chunks'] = r['chunks']
